@@ -74,7 +74,7 @@ def write_evidence(prop, tier, seed, total, n_viol, known_hits, level="explorati
         "samples": total["samples"][:3],
         "runs": runs,
         "runs_per_hour": int(runs / wall * 3600) if wall > 0 else 0,
-        "seeds": {"master": seed, "derivation": "sha256(master:index)[:6]", "indices": [0, max(0, runs - 1)]},
+        "seeds": {"master": seed, "derivation": "run seed = sha256(master:index)[:6]; world w of W takes the indices w + W*k, k = 0, 1, 2, ...", "runs": runs},
         "simulated_time": {"unit": "logical scheduler steps (the system has no clock)", "steps": total["steps"],
                            "mutations": total["mutations"], "observers": total["observers"], "fault_events": total["faults"]},
         "observation_points_cross_checked": total["points"],
